@@ -50,7 +50,7 @@ func runRandomScenarios(w *core.WorkerCtx, report []string, count int, tweak fun
 func ledgerPlan(qb, tb int) func(string) core.Plan {
 	return func(tier string) core.Plan {
 		if tier == "thorough" {
-			return core.Plan{Batches: tb, Parallel: 14, Timeout: 40 * time.Minute}
+			return core.Plan{Batches: tb, Parallel: 10, Timeout: 40 * time.Minute}
 		}
 		return core.Plan{Batches: qb, Parallel: 8, Timeout: 8 * time.Minute}
 	}
